@@ -401,7 +401,7 @@ type Case struct {
 // Mut is one single-byte change of one component.
 type Mut struct {
 	Comp string `json:"comp"` // ciphertext | tag | nonce | aad | wrapped-key | digest | signature | label
-	Op   string `json:"op"`   // xor | drop-last | append
+	Op   string `json:"op"`   // xor | drop-last | append | prepend | drop-first | strip-leading-zeros
 	Pos  int    `json:"pos"`
 	Val  byte   `json:"val"`
 }
@@ -430,6 +430,16 @@ func (m *Mut) apply(b []byte) []byte {
 		return clone(b[:len(b)-1])
 	case "append":
 		return append(clone(b), m.Val)
+	case "prepend":
+		return append([]byte{m.Val}, b...)
+	case "drop-first":
+		return clone(b[1:])
+	case "strip-leading-zeros":
+		i := 0
+		for i < len(b) && b[i] == 0 {
+			i++
+		}
+		return clone(b[i:])
 	}
 	panic("bad mutation op")
 }
